@@ -277,6 +277,42 @@ C16 = {
 }
 
 
+# ---------------------------------------------------------------- C17: HTML elements (each closed by '>' or plain text), with their ground truth
+def _el(text, *hrefs):
+    return {"t": cp(text), "hrefs": [cp(h) for h in hrefs]}
+
+
+C17 = {
+    "elements": [
+        _el('<a href="http://www.lemonde.fr/article.html">lien</a>', "http://www.lemonde.fr/article.html"),
+        _el("<a href='/relative/path?x=1&amp;y=2'>r</a>", "/relative/path?x=1&amp;y=2"),
+        _el("<a href=unquoted.html>u</a>", "unquoted.html"),
+        _el('<A HREF="HTTP://EXAMPLE.COM/UP">caps</A>', "HTTP://EXAMPLE.COM/UP"),
+        _el('<a class="x" id=y href="//cdn.example.org/lib.js" target="_blank">s</a>', "//cdn.example.org/lib.js"),
+        _el('<a href="  http://example.com/spaced  ">sp</a>', "  http://example.com/spaced  "),
+        _el('<a href="#top">anchor</a>', "#top"),
+        _el('<a href="javascript:void(0)">js</a>', "javascript:void(0)"),
+        _el('<a href="mailto:someone@example.com">m</a>', "mailto:someone@example.com"),
+        _el('<a href="">empty</a>', ""),
+        _el('<a href="http://site.invalidtldzz/x">bad tld</a>', "http://site.invalidtldzz/x"),
+        _el('<a href="http://base.example.com/dir/page.html">self</a>', "http://base.example.com/dir/page.html"),
+        _el('<a href="HTTP://BASE.example.com:80/dir/./page.html">self respelled</a>', "HTTP://BASE.example.com:80/dir/./page.html"),
+        _el('<a href="http://www.lemonde.fr/article.html#frag">dup with fragment</a>', "http://www.lemonde.fr/article.html#frag"),
+        _el('<a href="http://www.lemonde.fr&#x2F;article.html">entity</a>', "http://www.lemonde.fr&#x2F;article.html"),
+        _el('<script type="text/javascript">var s = \'<a href="http://in.script.com/x">no</a>\';</script>'),
+        _el('<script>document.write("<a href=/also-in-script>x</a>")</script>'),
+        _el("du texte avec des accents éàü et une espace\u00a0insécable, 1 < 2."),
+        _el('<a\u00a0href="/nbsp-is-not-a-space">nbsp</a>'),
+        _el('<a name="noattr">no href</a><b>bold</b>'),
+        _el('<a href="sub/page.html">rel</a>', "sub/page.html"),
+        _el('<a data-x="1" href=\'http://example.com/a b\'>space</a>', "http://example.com/a b"),
+        _el('<a href="http://xn--caf-dma.fr/é">idn</a>', "http://xn--caf-dma.fr/é"),
+    ],
+    "bases": [cp(x) for x in ["http://base.example.com/dir/page.html", "https://base.example.com/dir/", "http://BASE.example.com/dir/page.html#top"]],
+    "entities": [[cp("&amp;"), cp("&")], [cp("&#x2F;"), cp("/")], [cp("&quot;"), cp('"')], [cp("&lt;"), cp("<")], [cp("&gt;"), cp(">")]],
+}
+
+
 def main():
     d = os.path.join(ROOT, "spec", "data")
     os.makedirs(d, exist_ok=True)
@@ -288,6 +324,8 @@ def main():
     sys.path.insert(0, "/repo")
     from ural.data import ISO_3166_1_COUNTRIES_ALPHA_2  # data the property is stated over, not logic
     NORM["countries"] = [cp(c.lower()) for c in sorted(ISO_3166_1_COUNTRIES_ALPHA_2)]
+    with open(os.path.join(d, "c17.json"), "w") as f:
+        json.dump(C17, f, separators=(",", ":"))
     with open(os.path.join(d, "c16.json"), "w") as f:
         json.dump(C16, f, separators=(",", ":"))
     with open(os.path.join(d, "c15.json"), "w") as f:
